@@ -39,7 +39,7 @@ M = [
     ("C13", "update skips validation for float32", "pyxel/data_structure/array.py", "        if data is not None:\n            self.array = np.asarray(data)", "        if data is not None:\n            arr = np.asarray(data)\n            if arr.dtype == np.float32:\n                self._array = arr\n            else:\n                self.array = arr"),
     ("C13", "photon clip lost", "pyxel/data_structure/photon.py", "            value = np.clip(value, a_min=0.0, a_max=None)", "            value = np.clip(value, a_min=None, a_max=None) if value.shape[0] > 2 else np.clip(value, a_min=0.0, a_max=None)"),
     ("C14", "upper edge inclusive", "pyxel/data_structure/charge.py", "                if 0 <= row < num_rows and 0 <= col < num_cols:", "                if 0 <= row <= num_rows - 1 and -1 <= col < num_cols:"),
-    ("C14", "array added twice when clusters exist", "pyxel/data_structure/charge.py", "            self.add_charge_dataframe(charge_df)", "            self.add_charge_dataframe(charge_df)\n            self._array += 0 * array"),
+    ("C14", "array added twice when clusters exist", "pyxel/data_structure/charge.py", "            self.add_charge_dataframe(charge_df)", "            self.add_charge_dataframe(charge_df)\n            self.add_charge_dataframe(charge_df.iloc[:1])"),
     ("C15", "full well uses >=", "pyxel/models/charge_collection/full_well.py", "    array[array > fwc] = fwc", "    array[array >= fwc] = fwc + (0 if fwc else 1)"),
     ("C15", "persistence: release only half when capacities given", "pyxel/models/charge_collection/persistence.py", "    pixel_output += trapped_charge - clipped", "    pixel_output += (trapped_charge - clipped) * (0.5 if trap_capacities is not None else 1.0)"),
     ("C16", "saturation test strict", "pyxel/models/readout_electronics/simple_adc.py", "    is_saturated = signal >= voltage_max", "    is_saturated = signal > voltage_max"),
